@@ -302,7 +302,20 @@ func (w *World) onApplied(n *Node, e *blockEntry, au consensus.ApplyUpdate, firs
 		}
 	}
 	if l := w.ledgers[e.id]; l != nil && l.Forest != nil {
-		w.checkUpdateNodes("apply", n, e, l.Forest, au.ForEachTreeNode)
+		var touched []uint64
+		for _, d := range au.SiacoinElementDiffs() {
+			touched = append(touched, d.SiacoinElement.StateElement.LeafIndex)
+		}
+		for _, d := range au.SiafundElementDiffs() {
+			touched = append(touched, d.SiafundElement.StateElement.LeafIndex)
+		}
+		for _, d := range au.FileContractElementDiffs() {
+			touched = append(touched, d.FileContractElement.StateElement.LeafIndex)
+		}
+		for _, d := range au.V2FileContractElementDiffs() {
+			touched = append(touched, d.V2FileContractElement.StateElement.LeafIndex)
+		}
+		w.checkUpdateNodes("apply", n, e, l.Forest, au.ForEachTreeNode, touched...)
 		// every element the update reports carries the proof a store would keep
 		report := func(kind string, id [32]byte, se types.StateElement) {
 			if se.LeafIndex == types.UnassignedLeafIndex || se.LeafIndex >= l.Forest.N() || w.ownViolation() {
@@ -334,15 +347,35 @@ func (w *World) onApplied(n *Node, e *blockEntry, au consensus.ApplyUpdate, firs
 
 // checkUpdateNodes: the tree nodes an update reports (what a store that keeps
 // nodes rather than proofs would persist) are the nodes of the naive forest.
-func (w *World) checkUpdateNodes(how string, n *Node, e *blockEntry, f *ref.Forest, forEach func(func(row, col uint64, h types.Hash256))) {
+func (w *World) checkUpdateNodes(how string, n *Node, e *blockEntry, f *ref.Forest, forEach func(func(row, col uint64, h types.Hash256)), leaves ...uint64) {
 	if w.ownViolation() {
 		return
 	}
 	bad := ""
 	count := 0
+	seen := map[[2]uint64]bool{}
+	defer func() {
+		// completeness: every node between a touched leaf and the root of its tree is reported
+		if bad != "" || w.ownViolation() {
+			return
+		}
+		for _, i := range leaves {
+			if i >= f.N() {
+				continue
+			}
+			_, height := f.TreeOf(i)
+			for row := 0; row <= height; row++ {
+				if !seen[[2]uint64{uint64(row), i >> uint(row)}] {
+					w.violate("C05", "update-tree-node-missing", fmt.Sprintf("node %d, %s of block %s (height %d): ForEachTreeNode does not report node (row %d, column %d) on the path of touched leaf %d (tree of height %d)", n.idx, how, short(e.id), e.height, row, i>>uint(row), i, height))
+					return
+				}
+			}
+		}
+	}()
 	if p := guard(func() {
 		forEach(func(row, col uint64, h types.Hash256) {
 			count++
+			seen[[2]uint64{row, col}] = true
 			if bad != "" || row >= 63 || (col+1)<<row > f.N() {
 				return // (a node above the tree that holds it: not part of the forest)
 			}
@@ -372,7 +405,20 @@ func (w *World) onReverted(n *Node, e *blockEntry, ru consensus.RevertUpdate, pr
 		return
 	}
 	if l := w.ledgers[parent.id]; l != nil && l.Forest != nil {
-		w.checkUpdateNodes("revert", n, e, l.Forest, ru.ForEachTreeNode)
+		var touched []uint64
+		for _, d := range ru.SiacoinElementDiffs() {
+			touched = append(touched, d.SiacoinElement.StateElement.LeafIndex)
+		}
+		for _, d := range ru.SiafundElementDiffs() {
+			touched = append(touched, d.SiafundElement.StateElement.LeafIndex)
+		}
+		for _, d := range ru.FileContractElementDiffs() {
+			touched = append(touched, d.FileContractElement.StateElement.LeafIndex)
+		}
+		for _, d := range ru.V2FileContractElementDiffs() {
+			touched = append(touched, d.V2FileContractElement.StateElement.LeafIndex)
+		}
+		w.checkUpdateNodes("revert", n, e, l.Forest, ru.ForEachTreeNode, touched...)
 	}
 	w.lightsReverted(n, e, ru)
 	w.advReverted(n, e, ru)
